@@ -292,7 +292,7 @@ func (*DeduplicateAggregatorFunction).Reset
   ensures no-state-leaks: fresh(f.seen) && len(f.values) == 0 && forallv(k, "", !dom(f.seen, k))
 
 func (*ExprBridge).matchesLikePattern
-  props C13
+  props C13 C06 C20
   option safety
   ensures empty-pattern-matches-only-empty-text: len(pattern) == 0 ==> (result <==> len(text) == 0)
   ensures empty-text-needs-all-percent: len(text) == 0 ==> (result <==> forall(i, 0, len(pattern), pattern[i] == 37))
@@ -305,11 +305,11 @@ func (*ExprBridge).matchesLikePattern
 
 // ---- expression bridge (expr-lang behind it): assumed contracts
 extern GetExprBridge
-  props C04 C20 C05
+  props C04 C20 C05 C06 C13
   option pure
 
 func (*ExprBridge).EvaluateExpression
-  props C04 C20 C05 C06
+  props C04 C20 C05 C06 C13
   option assumed_frame
   count evals := Eval
   observe runErr := Run#1
@@ -337,14 +337,14 @@ extern iface.LegacyAggregatorFunction.New
 
 // ---- process-wide caches of the expression bridge: entries are keyed by the exact expression text
 func (*ExprBridge).CompileExpressionWithStreamSQLFunctions
-  props C20 C06
+  props C20 C06 C13
   modifies *
   before Load program-cache-read-under-the-exact-expression-text: $arg1 == boxof(expression, string)
   before Store program-cache-written-under-the-exact-expression-text: $arg1 == boxof(expression, string)
   before Compile compiles-the-expression-it-was-given: $arg0 == expression
 
 func (*ExprBridge).preprocessCached
-  props C20 C06
+  props C20 C06 C13
   modifies *
   before Load preprocess-cache-read-under-the-exact-expression-text: $arg1 == boxof(expression, string)
   before Store preprocess-cache-written-under-the-exact-expression-text: $arg1 == boxof(expression, string)
@@ -804,25 +804,25 @@ func (*TruncFunction).Execute
   modifies *
 
 func (*IfNullFunction).Execute
-  props C06
+  props C06 C13
   option safety
   requires validated-arguments: f != nil && len(args) >= 2 && len(args) <= 2
   modifies *
 
 func (*CoalesceFunction).Execute
-  props C06
+  props C06 C13
   option safety
   requires validated-arguments: f != nil && len(args) >= 1
   modifies *
 
 func (*NullIfFunction).Execute
-  props C06
+  props C06 C13
   option safety
   requires validated-arguments: f != nil && len(args) >= 2 && len(args) <= 2
   modifies *
 
 func (*GreatestFunction).Execute
-  props C06
+  props C06 C13
   option safety
   requires validated-arguments: f != nil && len(args) >= 1
   ensures never-an-error: result1 == nil
@@ -833,7 +833,7 @@ func (*GreatestFunction).Execute
   loop 1 invariant forall(j, 0, len(args), args[j] != nil && second(cast.ToFloat64E(args[j])) == nil) ==> second(cast.ToFloat64E(max)) == nil && forall(j, 0, i, cast.ToFloat64E(max) >= cast.ToFloat64E(args[j]))
 
 func (*LeastFunction).Execute
-  props C06
+  props C06 C13
   option safety
   requires validated-arguments: f != nil && len(args) >= 1
   ensures never-an-error: result1 == nil
@@ -844,7 +844,7 @@ func (*LeastFunction).Execute
   loop 1 invariant forall(j, 0, len(args), args[j] != nil && second(cast.ToFloat64E(args[j])) == nil) ==> second(cast.ToFloat64E(min)) == nil && forall(j, 0, i, cast.ToFloat64E(min) <= cast.ToFloat64E(args[j]))
 
 func (*CaseWhenFunction).Execute
-  props C06
+  props C06 C13
   option safety
   requires validated-arguments: f != nil && len(args) >= 2
   modifies *
